@@ -9,7 +9,7 @@ import z3
 from sqlglot import exp, parse_one
 
 from vt.sqlsmt.sym import (FALSE, NULL, SV, TRUE, Row, Table, Unsupported, as_kind, is_true, ite, lex_less, lit, same,
-                           unify)
+                           unify, int_to_double, trunc_real)
 
 AGG_TYPES = (exp.Sum, exp.Avg, exp.Count, exp.Min, exp.Max, exp.Median, exp.Stddev, exp.StddevPop, exp.StddevSamp,
              exp.Variance, exp.VariancePop, exp.ArgMin, exp.ArgMax, exp.LogicalAnd, exp.LogicalOr, exp.ArrayAgg,
@@ -32,6 +32,11 @@ class Tup:
 
     def __init__(self, present, binds, ord_):
         self.present, self.binds, self.ord = present, binds, list(ord_)
+
+
+def _og(outer, g):
+    """guard of a (correlated) subquery tuple: the enclosing row must exist too"""
+    return z3.And(outer.guard, g) if outer is not None else g
 
 
 class Scope:
@@ -206,7 +211,7 @@ class Evaluator:
         if wh is not None:
             new = []
             for tp in tuples:
-                sc = Scope(self, tp, tp.present, outer)
+                sc = Scope(self, tp, _og(outer, tp.present), outer)
                 c = is_true(self.expr(wh.this, sc))
                 new.append(Tup(z3.And(tp.present, c), tp.binds, tp.ord))
             tuples = new
@@ -221,7 +226,7 @@ class Evaluator:
                                       or group.args.get("all")):
                 raise Unsupported("GROUP BY variant")
             for tp in tuples:
-                sc = Scope(self, tp, tp.present, outer, aliases=aliases)
+                sc = Scope(self, tp, _og(outer, tp.present), outer, aliases=aliases)
                 keys.append([self._group_key(g, sc, sel) for g in gexprs])
             n = len(tuples)
             if gexprs:
@@ -240,14 +245,14 @@ class Evaluator:
                     members = [FALSE]
                 reps = [(0, TRUE, members)]
             for i, first, members in reps:
-                sc = Scope(self, tuples[i], first, outer, tuples=tuples, idx=i, members=members, aliases=aliases)
+                sc = Scope(self, tuples[i], _og(outer, first), outer, tuples=tuples, idx=i, members=members, aliases=aliases)
                 pres = first
                 if having is not None:
                     pres = z3.And(pres, is_true(self.expr(having.this, sc)))
                 out_rows.append((pres, sc, tuples[i].ord))
         else:
             for i, tp in enumerate(tuples):
-                sc = Scope(self, tp, tp.present, outer, tuples=tuples, idx=i, aliases=aliases)
+                sc = Scope(self, tp, _og(outer, tp.present), outer, tuples=tuples, idx=i, aliases=aliases)
                 out_rows.append((tp.present, sc, tp.ord))
         # window functions need the post-WHERE/GROUP relation: rebuild tuples for grouped queries
         if has_agg and (sel.args.get("qualify") is not None or any(self._has_window(e) for e in sel.expressions)):
@@ -814,6 +819,8 @@ class Evaluator:
             if a.kind == "bool":
                 return SV("int", a.null, z3.If(a.val, 1, 0))
             if a.kind == "real":
+                if getattr(self.ctx, "int64", False) and sc is not None:
+                    self.ctx.error(z3.And(sc.guard, z3.Not(a.null), z3.Or(a.val >= 2 ** 63, a.val < -2 ** 63)), "duckdb:double-to-int64-range")
                 # DOUBLE -> BIGINT rounds half to even (probed); encoded exactly
                 fl = z3.ToInt(a.val)
                 frac = a.val - z3.ToReal(fl)
@@ -822,6 +829,8 @@ class Evaluator:
             if a.kind == "str":
                 return self.cast_str_int(a, sc, try_)
         if tn in REALS:
+            if a.kind == "int" and tn in ("DOUBLE", "FLOAT", "REAL"):
+                return SV("real", a.null, int_to_double(self.ctx, a.val), dc=a.dc)
             if a.kind in ("int", "real"):
                 return as_kind(a, "real")
             if a.kind == "bool":
@@ -986,6 +995,9 @@ class Evaluator:
             return NULL("real")
         a = as_kind(a, "real")
         dv = as_kind(dv, "int")
+        dval = z3.simplify(z3.If(dv.null, z3.IntVal(-99), dv.val))
+        if z3.is_int_value(dval) and dval.as_long() == 0:
+            return SV("real", a.null, z3.ToReal(trunc_real(a.val)))     # TRUNC(x) / TRUNC(x, 0): exact
         f = self.ctx.uf("trunc", z3.RealSort(), z3.IntSort(), z3.RealSort())
         return SV("real", z3.Or(a.null, dv.null), f(a.val, dv.val))
 
